@@ -28,6 +28,7 @@ use trion::text::parse::{Argument, ArgumentType, ElementValue, Parser};
 use trion::text::token::Number;
 
 use crate::common::*;
+use std::fmt::Write as _;
 
 // ---------------------------------------------------------------------------------------------------------
 // trees
@@ -1781,6 +1782,15 @@ fn replay(cx: &mut Cx, input: &str)
 	}
 	let words: Vec<&str> = input.split(' ').filter(|w| !w.is_empty()).collect();
 	let bad = |cx: &mut Cx| cx.report.oracle_fail(input.to_owned(), "unrecognised replay input");
+	if words.first() == Some(&"TBL")
+	{
+		match (words.get(1).and_then(|h| unhex(h)).and_then(|b| String::from_utf8(b).ok()), words.get(2).and_then(|h| unhex(h)))
+		{
+			(Some(text), Some(want)) => check_table(cx, &text, &want),
+			_ => bad(cx),
+		}
+		return;
+	}
 	if words.first() == Some(&"O")
 	{
 		// O <class> <form> <x> T <tree>
@@ -1815,6 +1825,56 @@ fn replay(cx: &mut Cx, input: &str)
 	}
 }
 
+/// C07 through ONE parser: a long table of small statements (many unary operators, brackets and literals in one file).
+/// Each `.du8 (<expr>) & 0xFF;` must emit the low byte of the documented value — whatever was parsed before it.
+fn check_table(cx: &mut Cx, text: &str, want: &[u8])
+{
+	let input = format!("TBL {} {}", hex(text.as_bytes()), hex(want));
+	cx.report.cases(1);
+	match guarded(|| assemble(text))
+	{
+		Err(p) => cx.report.oracle_fail(input, format!("assembling a table of {} statements panicked: {p}", want.len())),
+		Ok(Err(e)) => cx.report.oracle_fail(input, format!("a table of {} valid statements was refused: {}", want.len(), &e[..e.len().min(300)])),
+		Ok(Ok(bytes)) =>
+		{
+			if bytes != want
+			{
+				let k = bytes.iter().zip(want.iter()).position(|(a, b)| a != b).unwrap_or(bytes.len().min(want.len()));
+				cx.report.oracle_fail(input, format!("statement {k} of the table emits {:?}, the documented value gives {:?} ({} of {} bytes)", bytes.get(k), want.get(k), bytes.len(), want.len()));
+			}
+		},
+	}
+}
+
+fn run_table_stream(cx: &mut Cx)
+{
+	let tables = if cx.thorough() {40} else {6};
+	for t in 0..tables
+	{
+		let mut rng = cx.rng.fork();
+		let n = [300usize, 520, 1100, 260, 700, 2100][t % 6];
+		let mut text = String::from(".addr 0;\n");
+		let mut want = Vec::new();
+		let mut made = 0;
+		while made < n
+		{
+			let x = match made % 4
+			{
+				// flat statements with unary operators: the shape of a hand-written table
+				0 => X::Bin(SUB, Box::new(gen_xlit(&mut rng)), Box::new(X::Neg(Box::new(X::Lit(rng.range(0, 9), Form::Dec))))),
+				1 => X::Not(Box::new(X::Neg(Box::new(gen_xlit(&mut rng))))),
+				_ => gen_x(&mut rng, 1 + (made % 3) as u32),
+			};
+			let Spec::Val(v) = spec(&x.tree()) else {continue};
+			let _ = write!(text, ".du8 ({}) & 0xFF;{}", x.text((made % 3) as u8), if made % 5 == 0 {"\n"} else {" "});
+			want.push((v & 0xFF) as u8);
+			made += 1;
+		}
+		cx.report.hit_n("table statements (one parser)", n as u64);
+		check_table(cx, &text, &want);
+	}
+}
+
 fn run_c07(cx: &mut Cx)
 {
 	cx.report.rule = "every binary operator at every pair of 40 boundary operands (40x40x10, exhaustive) and negate / not at each; \
@@ -1825,7 +1885,7 @@ precedence table requires (unary - ! > * / % > + - > << >> > & > ^ > |, left ass
 side, unary operators above and below every binary operator, every stacked sequence of 2-3 unary operators over boundary operands including expressions equal to i64::MIN (bare and inside larger expressions; each unary operator is its own node, so `--MIN` must be an error), random deeper expressions, literals in decimal / hex / binary / octal / character \
 form, three spacing styles - parsed by the real Parser as the argument of a directive or instruction, then real simplify / evaluate on the parsed \
 argument vs the i128 value of the tree the DOCUMENTED table assigns to the text; for a sample `.addr 0; .du32 <expr>;` through the real Context \
-must emit the little-endian value (or a diagnostic when the value is an error). non-trivial = the tree was rewritten; distinct = distinct results".to_owned();
+must emit the little-endian value (or a diagnostic when the value is an error); tables of 260-2100 such statements in ONE file (one parser): every byte is the low byte of the documented value. non-trivial = the tree was rewritten; distinct = distinct results".to_owned();
 	let b = boundary();
 	let mut trees = Vec::new();
 	for op in 0..10u8
@@ -1850,6 +1910,7 @@ must emit the little-endian value (or a diagnostic when the value is an error). 
 	for t in trees.iter().skip(16000).step_by(20011).take(8) {cx.report.sample(format!("{} -> {}", t.text(), real_simplify(t).simp_text()));}
 	run_simplify_batch(cx, &trees);
 	run_text_stream(cx);
+	run_table_stream(cx);
 }
 
 fn run_c08(cx: &mut Cx)
